@@ -16,7 +16,8 @@ RpChoice == {"r1", "r2", "absent"}
 \* the contract compares RP IDs exactly
 Near == {"r1case", "r1sub", "r1dot", "r1sfx"}
 Contents ==
-    { SelectSeq(<<Cred("c1", a, "u1"), Cred("c2", b, "u1"), Cred("c3", c, "u2")>>, LAMBDA x : x.rp # "absent") :
+    \* (c2 has no user handle: a non-discoverable or U2F credential is listed for its RP like any other)
+    { SelectSeq(<<Cred("c1", a, "u1"), Cred("c2", b, "none"), Cred("c3", c, "u2")>>, LAMBDA x : x.rp # "absent") :
         a \in RpChoice, b \in RpChoice, c \in RpChoice \cup Near }
 Lists == { <<>>, <<"c1">>, <<"c2">>, <<"c3">>, <<"x1">>, <<"c1", "c2">>, <<"c2", "c1">>, <<"c1", "c3">>,
            <<"c3", "x1">>, <<"x1", "c2">>, <<"c1", "c2", "c3">>,
